@@ -132,7 +132,7 @@ def gen_scenarios(chk, wd, gen_module, *, cfg_text=None, label="gen", workers=8,
     return scns
 
 
-def run_sim(chk, wd, scns, trace_module, *, label="sim", shards=12, sig_of=None, what_of=None, keep_traces=False, trace_cfg=None, runner="sim"):
+def run_sim(chk, wd, scns, trace_module, *, label="sim", shards=12, sig_of=None, what_of=None, keep_traces=False, trace_cfg=None, runner="sim", env_extra=None):
     """Execute scenarios on the real code (h3v sim) and validate every recorded trace with a TLC trace spec.
     Scenarios the spec cannot explain become violations (with a self-contained replay file)."""
     if not scns:
@@ -148,7 +148,7 @@ def run_sim(chk, wd, scns, trace_module, *, label="sim", shards=12, sig_of=None,
             for s in parts[k]:
                 f.write(json.dumps(s) + "\n")
         vlib.h3v(runner, sf, tf)
-        r = vlib.tlc(trace_module, trace_cfg, name=f"{label}.{k}.validate", wd=wd, workers=1, env={"TRACE": tf}, deque=True, xmx="3g")
+        r = vlib.tlc(trace_module, trace_cfg, name=f"{label}.{k}.validate", wd=wd, workers=1, env=dict({"TRACE": tf}, **(env_extra or {})), deque=True, xmx="3g")
         return k, tf, r
 
     with ThreadPoolExecutor(max_workers=min(shards, 14)) as ex:
@@ -176,7 +176,7 @@ def run_sim(chk, wd, scns, trace_module, *, label="sim", shards=12, sig_of=None,
                 why = vlib._unesc.sub(lambda m: m.group(1), why)
                 sig = sig_of(s, traces.get(sid, []), why) if sig_of else f"{label}:rejected"
                 what = what_of(s, traces.get(sid, []), why) if what_of else f"scenario {sid} ({json.dumps({k: v for k, v in s.items() if k not in ('steps', 'handlers', 'default_handler', 'cfg')})[:200]}) is not a behaviour of {trace_module}: {why[:120]}"
-                chk.violation(sig, what, {"kind": "scenario", "trace_module": trace_module, "trace_cfg": trace_cfg, "runner": runner, "scenario": s, "trace": traces.get(sid, []), "why": why})
+                chk.violation(sig, what, {"kind": "scenario", "trace_module": trace_module, "trace_cfg": trace_cfg, "runner": runner, "env_extra": env_extra, "scenario": s, "trace": traces.get(sid, []), "why": why})
         if os.environ.get("VERIF_KEEP"):
             json.dump({"trace": tf, "trace_module": trace_module, "trace_cfg": trace_cfg, "runner": runner}, open(tf + ".meta.json", "w"))
         elif not keep_traces:
@@ -197,7 +197,7 @@ def replay_scenario(path, chk):
     if rep.get("kind") != "scenario":
         return replay_vector(path, chk)
     wd = vlib.workdir(chk.prop + "-replay")
-    n = run_sim(chk, wd, [rep["scenario"]], rep["trace_module"], label="replay", shards=1, keep_traces=True, trace_cfg=rep.get("trace_cfg"), runner=rep.get("runner", "sim"))
+    n = run_sim(chk, wd, [rep["scenario"]], rep["trace_module"], label="replay", shards=1, keep_traces=True, trace_cfg=rep.get("trace_cfg"), runner=rep.get("runner", "sim"), env_extra=rep.get("env_extra"))
     if chk.violations:
         print(f"VIOLATION property={chk.prop} replay={path}  # reproduced: {chk.violations[0]['what'][:200]}")
         return 1
